@@ -75,6 +75,7 @@ def tol_of(A):
     return 1e-9 * max(1.0, float(np.max(np.abs(A))) if A.size else 1.0)
 
 def oracle_decomp(line, out):
+    line, _lay = impl.split_layout(line)
     _, sh, dt = line.split(" ")
     shape = impl.parse_shape(sh)
     if not valid_matrix_shape(shape):
@@ -98,6 +99,7 @@ def oracle_decomp(line, out):
     return None
 
 def oracle_dlook(line, out):
+    line, _lay = impl.split_layout(line)
     cmd, ps, sh, dt = line.split(" ")
     diag = cmd == "dlookd"
     shape = impl.parse_shape(sh)
@@ -135,7 +137,7 @@ def oracle_dlook(line, out):
             return "sum_P w[P] M(P) != A (weights as looked up by the strings)"
     if diag:
         # the diagonal variant agrees with the general one on the diagonal matrix
-        other = impl.dlook(ps, f"{shape[0]}x{shape[0]}", impl.show_vec(A))
+        other = impl.dlook(ps, f"{shape[0]}x{shape[0]}", impl.show_vec(A), layout=_lay if _lay in ("C", "F", "R") else "C")
         a, b = out.split(","), other.split(",")
         for s, x, y in zip(strs, a, b):
             if x.startswith("!") or y.startswith("!"):
@@ -146,6 +148,7 @@ def oracle_dlook(line, out):
     return None
 
 def oracle_decompd(line, out):
+    line, _lay = impl.split_layout(line)
     _, sh, dt = line.split(" ")
     shape = impl.parse_shape(sh)
     if not valid_diag_shape(shape):
@@ -191,6 +194,7 @@ def oracle_pweights(line, out):
     return None
 
 def oracle_weight(line, out):
+    line, _lay = impl.split_layout(line)
     _, p, dt = line.split(" ")
     s = "" if p == "-" else p
     b = parse_vec(dt)
@@ -213,6 +217,7 @@ def _float_of(txt):
 def oracle_stats_batch(lines, outs):
     """entropy / influence against their defining sums (independent coefficients), and
     against the model's exact |c_P|^2 and influence at tolerance"""
+    lines = [impl.split_layout(l)[0] for l in lines]
     ml = []
     for l in lines:
         _, sh, dt = l.split(" ")
@@ -324,7 +329,12 @@ def float_entry(rng):
     return Fraction(*float(x).as_integer_ratio())
 
 def shrink_line(line):
-    """zero single entries; replace entries by 1; take the leading quadrant"""
+    """zero single entries; replace entries by 1; take the leading quadrant (the layout token is kept)"""
+    base, lay = impl.split_layout(line)
+    if lay != "C":
+        for c in shrink_line(base):
+            yield c + " layout=" + lay
+        return
     t = line.split(" ")
     cmd = t[0]
     if cmd not in ("decomp", "decompd", "dlook", "dlookd", "stats"):
@@ -346,7 +356,10 @@ def shrink_line(line):
             yield " ".join(t[:k] + [sh, ",".join(ent[:i] + ["1:0"] + ent[i + 1:])] + t[k + 2:])
 
 def nontrivial(line, out):
-    return not out.startswith("!") and any(ch in "123456789" for ch in line.split(" ", 1)[1])
+    return not out.startswith("!") and any(ch in "123456789" for ch in impl.split_layout(line)[0].split(" ", 1)[1])
+
+LAYOUTS2 = ["C", "F", "T", "S", "O", "N", "R", "E", "F,R", "T,S", "S,N", "F,E", "O,R"]     # 2-D arrays
+LAYOUTS1 = ["C", "S", "O", "N", "R", "E", "S,N", "O,R"]                                       # 1-D arrays
 
 def build_streams(rng, tier):
     thorough = tier == "thorough"
@@ -415,6 +428,45 @@ def build_streams(rng, tier):
             kinds[l] = f"{l.split(' ')[0]} n={n}"
             dg.append(l)
 
+    # ---- the same logical matrices in different memory layouts
+    lay = []
+    for n, cnt in ({1: 8, 2: 10, 3: 6, 4: 2} if not thorough else {1: 30, 2: 40, 3: 30, 4: 10, 5: 2}).items():
+        N = 2 ** n
+        for k in range(cnt):
+            kind = ["dense", "real", "int", "sparse", "unit", "pauli", "pauli-sum", "hermitian"][k % 8]
+            rows = gen_matrix(rng, n, kind)
+            keys = all_strings(n) if n <= 2 else rng.sample(all_strings(n), 12)
+            for L in LAYOUTS2:
+                l = mat_line("decomp", rows) + " layout=" + L
+                kinds[l] = f"layout={L} decomp"; lay.append(l)
+                if n <= 3 and k % 2 == 0:
+                    l = mat_line("dlook", rows, pre=",".join(keys) + " ") + " layout=" + L
+                    kinds[l] = f"layout={L} dlook"; lay.append(l)
+            d = [(dy(rng), dy(rng) if k % 2 else Fraction(0)) for _ in range(N)]
+            b = [(dy(rng), dy(rng)) for _ in range(4 ** n if k % 2 else N)]
+            for L in LAYOUTS1:
+                l = f"decompd {N} {show_data(d)} layout={L}"; kinds[l] = f"layout={L} decompd"; lay.append(l)
+                if n <= 3:
+                    l = f"dlookd {','.join(keys)} {N} {show_data(d)} layout={L}"; kinds[l] = f"layout={L} dlookd"; lay.append(l)
+                    l = f"weight {rng.choice(keys)} {show_data(b)} layout={L}"; kinds[l] = f"layout={L} weight"; lay.append(l)
+    # every matrix unit E_ij (the transpose is visible on each off-diagonal one), n = 1, 2, in every layout
+    for n in (1, 2):
+        N = 2 ** n
+        for i in range(N):
+            for j in range(N):
+                m = [[(Fraction(int((a, b) == (i, j))), Fraction(0)) for b in range(N)] for a in range(N)]
+                for L in LAYOUTS2[1:]:
+                    l = mat_line("decomp", m) + " layout=" + L; kinds[l] = f"layout={L} decomp"; lay.append(l)
+    # malformed shapes in non-default layouts
+    for sh in [(), (1,), (3,), (1, 1), (0, 0), (2, 3), (3, 3), (6, 6), (2, 2, 2), (4, 1)]:
+        size = 1
+        for x in sh:
+            size *= x
+        ent = [(Fraction(rng.randint(-5, 5)), Fraction(rng.randint(-5, 5))) for _ in range(size)]
+        for L in ["F", "S", "N", "R"]:
+            for cmd in ("decomp", "decompd"):
+                l = f"{cmd} {'x'.join(map(str, sh)) or '-'} {show_data(ent)} layout={L}"; kinds[l] = f"layout={L} guard"; lay.append(l)
+
     # ---- weight table
     pw = [f"pweights {n} {ip}" for n in range(0, 7 if thorough else 6) for ip in (0, 1, 2, 3, -1, 4, 7)] + ["pweights -1 0", "pweights -3 2"]
 
@@ -463,7 +515,7 @@ def build_streams(rng, tier):
             coef = coeffs(arr_of(*l.split(" ")[1:3]), n)
             if np.any((coef.real != 0) & (coef.imag != 0)):
                 continue
-            inf.append(l)
+            inf.append(l if k % 4 == 0 else l + " layout=" + LAYOUTS2[k % len(LAYOUTS2)])
 
     # ---- generic floating point, implementation against the oracle only
     gen = []
@@ -477,7 +529,7 @@ def build_streams(rng, tier):
                     rows[i][i] = (rows[i][i][0], Fraction(0))
                     for j in range(i + 1, N):
                         rows[j][i] = (rows[i][j][0], -rows[i][j][1])
-            gen.append(mat_line("decomp", rows))
+            gen.append(mat_line("decomp", rows) + ("" if k % 3 == 0 else " layout=" + LAYOUTS2[(k // 3 + k) % len(LAYOUTS2)]))
     st = []
     for n, cnt in ({1: 40, 2: 40, 3: 30, 4: 10} if not thorough else {1: 200, 2: 200, 3: 200, 4: 100, 5: 20}).items():
         N = 2 ** n
@@ -488,7 +540,7 @@ def build_streams(rng, tier):
                 rows = gen_matrix(rng, n, "pauli-sum")
             else:
                 rows = [[(float_entry(rng), float_entry(rng)) for _ in range(N)] for _ in range(N)]
-            st.append(mat_line("stats", rows))
+            st.append(mat_line("stats", rows) + ("" if k % 2 == 0 else " layout=" + LAYOUTS2[(k // 2) % len(LAYOUTS2)]))
     st += ["stats 1x1 1:0", "stats 3x3 " + show_data([(Fraction(1), Fraction(0))] * 9), "stats 2 1:0,1:0"]
 
     def orc(l, o):
@@ -497,6 +549,7 @@ def build_streams(rng, tier):
                 "pweights": oracle_pweights, "weight": oracle_weight}.get(c, lambda l, o: None)(l, o)
     def orc_guard(l, o):
         if l.startswith("infl"):
+            l = impl.split_layout(l)[0]
             return None if (o == "!ValueError") == (not valid_matrix_shape(impl.parse_shape(l.split(" ")[1]))) else f"average_pauli_weight guard: {o}"
         return orc(l, o)
     return [
@@ -504,6 +557,7 @@ def build_streams(rng, tier):
         Stream("dyadic-decomposition-n<=4", dec, h, oracle_decomp, nontrivial=nontrivial, shrink=shrink_line, tag=tagk),
         Stream("every-string-as-lookup-key-n<=3", look, h, oracle_dlook, nontrivial=nontrivial, shrink=shrink_line, tag=tagk),
         Stream("diagonal-variant", dg, h, orc, nontrivial=nontrivial, shrink=shrink_line, tag=tagk),
+        Stream("same-matrix-different-memory-layout", lay, h, orc_guard, nontrivial=nontrivial, shrink=shrink_line, tag=tagk),
         Stream("weight-table", pw, h, oracle_pweights, tag=lambda l, o: "ip=" + l.split(" ")[2]),
         Stream("lookup-right-and-wrong-length", wl, h, oracle_weight,
                tag=lambda l, o: "weight " + ("valueError" if o == "!ValueError" else "error " + o if o.startswith("!") else "answered")),
@@ -511,7 +565,7 @@ def build_streams(rng, tier):
         Stream("influence-exact", inf, h, None, nontrivial=nontrivial,
                tag=lambda l, o: "infl " + ("error " + o if o.startswith("!") else "answered")),
         Stream("generic-float-n<=6", gen, h, oracle_decomp, nontrivial=nontrivial, shrink=shrink_line, model=False,
-               tag=lambda l, o: "generic n=" + str(impl.parse_shape(l.split(" ")[1])[0].bit_length() - 1)),
+               tag=lambda l, o: "generic n=" + str(impl.parse_shape(l.split(" ")[1])[0].bit_length() - 1) + " layout=" + impl.split_layout(l)[1]),
         Stream("entropy-influence", st, impl.handle, nontrivial=nontrivial, shrink=shrink_line, model=False, batch_oracle=oracle_stats_batch,
                tag=lambda l, o: "stats " + ("error" if o.startswith("!") else "answered")),
     ]
@@ -520,6 +574,8 @@ RULE = ("dyadic Gaussian-rational matrices (dense, real, integer, sparse, Hermit
         "every Pauli matrix and every matrix unit for n<=2) for n<=4 (thorough n<=5) compared exactly with the model and checked by the "
         "oracle (coefficients by tensor contraction, reconstruction); every string of length n<=3 as lookup key (plus keys of wrong length); "
         "diagonal variant n<=5/6 against the general decomposition of diag(d); weight table n<=5/6 for identity_pos in {0,1,2,3,-1,4,7}; "
+        "the same logical matrices / diagonals / weight vectors held in 13 (2-D) resp. 8 (1-D) memory layouts (C, Fortran, transposed view, strided and "
+        "offset windows of larger arrays, negative strides, read-only, big-endian, combinations) incl. every matrix unit n<=2, judged by the logical matrix; "
         "lookups into vectors of right/wrong length; 37 malformed shapes for both entry points; influence compared exactly where the "
         "floating-point evaluation is exact; full-precision float matrices n<=6 and entropy/influence against the oracle at 1e-9. "
         "A case is non-trivial if it is answered and the data contain a non-zero entry; distinct = distinct protocol lines")
@@ -532,7 +588,9 @@ def main(tier):
                      "the end never occur on guarded input and are modelled by truncation, not by numpy's broadcasting error",
                      "the model is tied to the Python code by exact comparison on dyadic inputs (all arithmetic exact in binary64) and by the "
                      "oracle at tolerance on generic floats",
-                     "numpy: reshape/fancy indexing/astype/slice assignment as documented"])
+                     "numpy: reshape/fancy indexing/astype/slice assignment as documented; the model sees the logical matrix only — independence of "
+                     "the ndarray's memory layout / dtype / writeability is established by the layout stream (sampled), not by a theorem",
+                     "lists of lists are not accepted by the API (AttributeError on .ndim) and complex64 input is lossy: neither is exercised"])
 
 def replay(path):
     r = json.load(open(path))
